@@ -448,6 +448,152 @@ static Result check_geometry(const J &c)
   return r;
 }
 
+// ---------------------------------------------------------------- (d'') segment lengths across two sections
+// straight cartesian 2-coordinate trench, 1..3 straight segments of one common dip and one common thickness (the slab is a plane
+// whatever the lengths are), each segment with its own uniform temperature (the same in both sections). The two sections give the
+// segments different lengths, zero included. A segment's length between the coordinates is a convex combination of the two
+// sections' lengths and the section's own length beside its coordinate, so that (i) the slab ends where the interpolated total length
+// ends and (ii) the temperature of a point tells which segment it is in: both are decided wherever every admissible combination agrees.
+static J gen_lengths(Chooser &ch)
+{
+  J c = J::obj();
+  const bool fault = ch.chance(35);
+  c["type"] = fault ? "fault" : "subducting plate";
+  c["H"] = 2500e3;
+  const double x0 = ch.lattice(-1500e3, 1500e3, 1e3), y0 = ch.lattice(-1500e3, 1500e3, 1e3);
+  const double az = ch.real(-PI, PI), len = ch.real(400e3, 1500e3);
+  c["p0"] = jp(x0, y0); c["p1"] = jp(x0 + len * std::cos(az), y0 + len * std::sin(az));
+  c["side"] = ch.flip() ? 1 : -1;
+  c["dip"] = ch.lattice(20, 80, 5);
+  c["thickness"] = ch.lattice(40e3, 150e3, 10e3);
+  const int ns = static_cast<int>(ch.range(1, 3));
+  J temps = J::arr();
+  for (int j = 0; j < ns; ++j) temps.push(J(400.0 + 300.0 * j + ch.lattice(0, 200, 25)));
+  c["temps"] = temps;
+  J secs = J::arr();
+  for (int i = 0; i < 2; ++i)
+    {
+      J ls = J::arr();
+      for (int j = 0; j < ns; ++j) ls.push(J(ch.chance(22) ? 0.0 : ch.lattice(50e3, 400e3, 10e3)));
+      bool all_zero = true;
+      for (auto &l : ls.a) if (l.num() != 0) all_zero = false;
+      if (all_zero) ls[0] = J(ch.lattice(50e3, 400e3, 10e3));
+      secs.push(ls);
+    }
+  c["lengths"] = secs;
+  c["layout"] = static_cast<int>(ch.range(0, 2));
+  J pts = J::arr();
+  const int np = static_cast<int>(ch.range(12, 40));
+  for (int i = 0; i < np; ++i)
+    {
+      J p = J::obj();
+      p["s"] = ch.pick<double>({1e-6, 1 - 1e-6, 1e-6, 1 - 1e-6, 0.5, 0.2, 0.8});
+      if (ch.chance(20)) p["s"] = ch.real(0.05, 0.95);
+      p["l"] = ch.real(0.0, 1.1); // of the longer of the two total lengths
+      p["n"] = ch.real(0.1, 0.9); // of the thickness (fault: of the half thickness, either side)
+      p["neg"] = ch.flip();
+      pts.push(p);
+    }
+  c["points"] = pts;
+  return c;
+}
+
+static Result check_lengths(const J &c)
+{
+  Result r;
+  const bool fault = c.at("type").str() == "fault";
+  const double H = c.at("H").num();
+  const double x0 = c.at("p0")[0].num(), y0 = c.at("p0")[1].num(), x1 = c.at("p1")[0].num(), y1 = c.at("p1")[1].num();
+  const double len = std::sqrt((x1 - x0) * (x1 - x0) + (y1 - y0) * (y1 - y0));
+  const double tx = (x1 - x0) / len, ty = (y1 - y0) / len, side = c.at("side").num();
+  const double nx = -ty * side, ny = tx * side;
+  const double dip = c.at("dip").num() * DEG, thick = c.at("thickness").num();
+  const size_t ns = c.at("temps").size();
+  auto seg_json = [&](const J &ls) {
+    J a = J::arr();
+    for (size_t j = 0; j < ns; ++j)
+      {
+        J js = J::obj();
+        js["length"] = ls[j]; js["thickness"] = J::arr({J(thick)}); js["angle"] = J::arr({c.at("dip")});
+        J tm = J::obj(); tm["model"] = "uniform"; tm["temperature"] = c.at("temps")[j];
+        js["temperature models"] = J::arr({tm});
+        a.push(js);
+      }
+    return a;
+  };
+  J root = J::obj();
+  root["version"] = "1.1";
+  J feat = J::obj();
+  feat["model"] = c.at("type").str(); feat["name"] = "line";
+  feat["coordinates"] = J::arr({jp(x0, y0), jp(x1, y1)});
+  feat["dip point"] = jp(0.5 * (x0 + x1) + nx * 5e7, 0.5 * (y0 + y1) + ny * 5e7);
+  const int layout = static_cast<int>(c.at("layout").num());
+  J sections = J::arr();
+  auto sec = [&](int coord) { J s = J::obj(); s["coordinate"] = coord; s["segments"] = seg_json(c.at("lengths")[static_cast<size_t>(coord)]); return s; };
+  if (layout == 0) { feat["segments"] = seg_json(c.at("lengths")[0]); sections.push(sec(1)); }
+  else if (layout == 1) { feat["segments"] = seg_json(c.at("lengths")[1]); sections.push(sec(0)); }
+  else { feat["segments"] = seg_json(c.at("lengths")[0]); sections.push(sec(0)); sections.push(sec(1)); }
+  feat["sections"] = sections;
+  root["features"] = J::arr({feat});
+  auto W = make_world(root.dump());
+  r.classes.push_back(fault ? "fault" : "slab");
+  // cumulative lengths per section
+  std::vector<std::array<double, 2>> cum(ns + 1, {{0.0, 0.0}});
+  bool zero_one_side = false;
+  for (size_t j = 0; j < ns; ++j)
+    for (size_t i = 0; i < 2; ++i)
+      {
+        cum[j + 1][i] = cum[j][i] + c.at("lengths")[i][j].num();
+        if ((c.at("lengths")[i][j].num() == 0) != (c.at("lengths")[1 - i][j].num() == 0)) zero_one_side = true;
+      }
+  if (zero_one_side) r.classes.push_back("a segment of length zero in one section only");
+  const double longest = std::max(cum[ns][0], cum[ns][1]);
+  for (const auto &p : c.at("points").a)
+    {
+      const double along = p.at("l").num() * longest;
+      double from = p.at("n").num() * thick * (fault ? 0.5 : 1.0);
+      if (fault && p.at("neg").boolean()) from = -from;
+      // the plane: along the surface by `along`, `from` it on the lower side
+      const double qx = along * std::cos(dip) - from * std::sin(dip), depth = along * std::sin(dip) + from * std::cos(dip);
+      if (depth < 0 || depth > H) continue;
+      const double f = p.at("s").num(), s = f * len;
+      const double X = x0 + s * tx + qx * nx, Y = y0 + s * ty + qx * ny;
+      const std::vector<double> out = W->properties({{X, Y, H - depth}}, depth, {{{1, 0, 0}}, {{4, 0, 0}}});
+      const bool inside = out[1] != -1;
+      r.inner++; r.nontrivial = true; r.inner_nt++;
+      const bool near0 = f <= 1.1e-6, near1 = f >= 1 - 1.1e-6;
+      // admissible range of every cumulative length at this place
+      auto range = [&](size_t j, double &lo, double &hi) {
+        lo = std::min(cum[j][0], cum[j][1]); hi = std::max(cum[j][0], cum[j][1]);
+        if (near0 || near1) { const double own = cum[j][near0 ? 0 : 1], b = 0.03 * (hi - lo) + 1.0; lo = own - b; hi = own + b; }
+        else { lo -= 1.0; hi += 1.0; }
+      };
+      if (near0 || near1) r.classes.push_back("beside a coordinate");
+      double tlo, thi;
+      range(ns, tlo, thi);
+      const std::string where = " (trench fraction " + fmt(f) + ", along the surface " + fmt(along) + ", from it " + fmt(from) + "); segment lengths of the two sections " + c.at("lengths").dump();
+      if (along < tlo && !inside)
+        return Result::fail(near0 || near1 ? "section-own-length" : "section-length-convexity", c.at("type").str() + ": a point is reported outside although every combination of the adjacent sections' total lengths [" + fmt(tlo) + "," + fmt(thi) + "] reaches it" + where);
+      if (along > thi && inside)
+        return Result::fail(near0 || near1 ? "section-own-length" : "section-length-convexity", c.at("type").str() + ": a point is reported inside although no combination of the adjacent sections' total lengths [" + fmt(tlo) + "," + fmt(thi) + "] reaches it" + where);
+      if (!inside) continue;
+      // which segment: the one whose admissible start lies before and whose admissible end lies behind the point
+      for (size_t j = 0; j < ns; ++j)
+        {
+          double alo, ahi, blo, bhi;
+          range(j, alo, ahi); range(j + 1, blo, bhi);
+          if (j == 0) ahi = -1;
+          if (along > ahi && along < blo)
+            {
+              r.classes.push_back("segment identified by its temperature");
+              if (!close_rel(out[0], c.at("temps")[j].num(), 1e-9))
+                return Result::fail(near0 || near1 ? "section-own-length" : "section-length-convexity", c.at("type").str() + ": the temperature " + fmt(out[0]) + " is not that of segment " + std::to_string(j) + " (" + fmt(c.at("temps")[j].num()) + "), in which the point lies for every combination of the adjacent sections' lengths" + where);
+            }
+        }
+    }
+  return r;
+}
+
 // ---------------------------------------------------------------- (c') locality with sections that differ in geometry and non-uniform models
 // every coordinate has its own section (own lengths, thickness, dips); the feature carries distance-dependent temperature models
 // (slab: mass conserving / plate model / linear / adiabatic, fault: linear / adiabatic). Replacing the section of one coordinate by
@@ -572,6 +718,7 @@ int main(int argc, char **argv)
   {
     {"relayout", "slab or fault with 2..5 coordinates (bends <= 25 deg), 1..3 segments, uniform temperature/composition/grains/velocity models placed at feature, section and segment level in random combinations, sections for a random subset of coordinates with their own geometry; (a) writing the inherited models into every segment and (b) repeating the default segments in a section entry for every coordinate must not change any answer. Non-trivial: inside the feature, >=1 section override and >=1 inherited kind", 80, gen_relayout, check_relayout, 100, true, true},
     {"sections", "4..5 coordinates, every coordinate with a section carrying its own uniform temperature (same geometry); points beside the trench: value inside the hull of the adjacent sections, a section's own value beside its coordinate, and changing one section's value leaves points beyond its neighbours unchanged", 80, gen_sections, check_sections, 100, true, true},
+    {"section_lengths", "straight cartesian trench with two coordinates, 1..3 straight segments of one dip and thickness, each with its own uniform temperature, whose lengths differ between the two sections (22% of the lengths are zero); points in slab coordinates beside each coordinate and in between: the slab ends within the hull of the two total lengths (beside a coordinate: at the section's own), and a point lying in segment j for every admissible combination has segment j's temperature", 120, gen_lengths, check_lengths, 100, true, true},
     {"section_geometry", "straight cartesian trench with two coordinates whose sections differ in thickness and top-truncation pairs (written as default+override, override+default, or two overrides); 10..40 points generated in slab coordinates beside each coordinate (1e-6 of the trench length in) and in between: membership must follow the section's own thickness/top truncation beside its coordinate and lie within the hull of the two sections in between", 120, gen_geometry, check_geometry, 100, true, true},
     {"section_locality", "4..5 coordinates, each with a section of its own geometry (lengths, thickness, dips), feature-level distance-dependent temperature models (slab: mass conserving / plate model / linear / adiabatic / uniform; fault: linear / adiabatic / uniform); replacing the section of one coordinate by another one must leave every property bit-identical beside trench segments at least two coordinates away. Non-trivial: point inside the feature in one of the two worlds", 80, gen_locality, check_locality, 100, true, true},
   });
